@@ -51,6 +51,15 @@ __CPROVER_ensures(sm->m_active_state_ids[g_k] == ((POLICY == 1 || (POLICY == 2 &
 __CPROVER_ensures(!g_exc ==> g_entry_next == nr_regions)                                                                    /*@ob C02.every-regions-substate-entered */
 ;
 #define SET_IDS_THEN(call) ((call), g_seq = 2)      /* ghost step: all ids set */
+/* no_history: the entry visitor is applied to std::get<id>(sm.m_states) for the initial state ids, in region order (mp_for_each<InitialStateIds>) */
+void visitor_state_by_id(fsm_t* sm, uint16_t state_id)
+__CPROVER_requires(g_seq == 2 && !g_exc && 0 <= g_entry_next && g_entry_next < nr_regions)   /*@ob C02.substates-entered-after-the-machines-own-entry-and-after-all-ids-are-set */
+__CPROVER_requires(state_id == g_init_ids16[g_entry_next])                                   /*@ob C02,C08.without-history-the-initial-state-of-every-region-is-entered-in-region-order */
+__CPROVER_requires(sm->m_event_processing)                                                   /*@ob C04.entry-behaviours-run-with-the-busy-mark-set */
+__CPROVER_assigns(g_entry_next, g_exc)
+__CPROVER_ensures(g_exc || g_entry_next == __CPROVER_old(g_entry_next) + 1)
+__CPROVER_ensures(g_exc ==> g_entry_next == __CPROVER_old(g_entry_next))
+;
 
 /* ---- state_machine_base ---- */
 void front_on_entry(fsm_t* self, event_t event, fsm_t* fsm)
